@@ -868,43 +868,71 @@ func c03flagWritesSelectFromTheIndexRead(c *Ctx) {
 			if ids == nil {
 				continue
 			}
-			// the slices whose elements' ID field is appended
-			var ranged []ssa.Value
-			engine.Backward(ids, engine.FlowOpts{Loads: true, AppendBase: true, AppendElems: true}, func(x ssa.Value) bool {
-				var fx ssa.Value
-				switch t := x.(type) {
-				case *ssa.Field:
-					fx = t.X
-				case *ssa.UnOp:
-					if fa, ok := t.X.(*ssa.FieldAddr); ok {
-						fx = fa.X
-					}
-				}
-				if fx == nil {
-					return true
-				}
-				// fx: element of a slice of db.MessageFlagSet (value loaded from, or address into, the slice)
-				cands := []ssa.Value{fx}
-				if al, ok := fx.(*ssa.Alloc); ok { // the range variable kept in a cell
-					cands = nil
-					for _, st := range engine.StoresTo(al) {
-						cands = append(cands, st.Val)
-					}
-				}
-				hit := false
-				for _, cv := range cands {
-					if u, ok := cv.(*ssa.UnOp); ok {
-						cv = u.X
-					}
-					if ia, ok := cv.(*ssa.IndexAddr); ok {
-						if sl, ok := ia.X.Type().Underlying().(*types.Slice); ok && engine.IsNamed(sl.Elem(), "db", "MessageFlagSet") {
-							ranged = append(ranged, ia.X)
-							hit = true
+			// the slices whose elements' ID field is appended - here, or in a helper of the package that builds the list
+			var rangedOf func(v ssa.Value, depth int) []ssa.Value
+			rangedOf = func(v ssa.Value, depth int) []ssa.Value {
+				var ranged []ssa.Value
+				engine.Backward(v, engine.FlowOpts{Loads: true, AppendBase: true, AppendElems: true}, func(x ssa.Value) bool {
+					if call, ok := x.(*ssa.Call); ok && depth > 0 {
+						if h := call.Call.StaticCallee(); h != nil && len(h.Blocks) > 0 && engine.RelPkg(P.OwnPkgPath(h)) == "internal/state" {
+							for _, ret := range engine.Returns(h) {
+								if len(ret.Results) == 0 {
+									continue
+								}
+								for _, rs := range rangedOf(ret.Results[0], depth-1) {
+									// a slice parameter of the helper stands for the caller's argument
+									engine.Backward(rs, engine.FlowOpts{Loads: true}, func(y ssa.Value) bool {
+										if p, ok := y.(*ssa.Parameter); ok {
+											for i, hp := range h.Params {
+												if hp == p && i < len(call.Call.Args) {
+													ranged = append(ranged, call.Call.Args[i])
+												}
+											}
+											return false
+										}
+										return true
+									})
+								}
+							}
+							return false
 						}
 					}
-				}
-				return !hit
-			})
+					var fx ssa.Value
+					switch t := x.(type) {
+					case *ssa.Field:
+						fx = t.X
+					case *ssa.UnOp:
+						if fa, ok := t.X.(*ssa.FieldAddr); ok {
+							fx = fa.X
+						}
+					}
+					if fx == nil {
+						return true
+					}
+					cands := []ssa.Value{fx}
+					if al, ok := fx.(*ssa.Alloc); ok { // the range variable kept in a cell
+						cands = nil
+						for _, st := range engine.StoresTo(al) {
+							cands = append(cands, st.Val)
+						}
+					}
+					hit := false
+					for _, cv := range cands {
+						if u, ok := cv.(*ssa.UnOp); ok {
+							cv = u.X
+						}
+						if ia, ok := cv.(*ssa.IndexAddr); ok {
+							if sl, ok := ia.X.Type().Underlying().(*types.Slice); ok && engine.IsNamed(sl.Elem(), "db", "MessageFlagSet") {
+								ranged = append(ranged, ia.X)
+								hit = true
+							}
+						}
+					}
+					return !hit
+				})
+				return ranged
+			}
+			ranged := rangedOf(ids, 2)
 			for _, rs := range ranged {
 				n++
 				bad := ""
